@@ -332,6 +332,11 @@ def run(prop, seed, budget, ctx):
         rf, rn, rd, rh = rec_conv.run_part(prop, seed, budget)
         failures += rf; evaluations += rn; distinct |= rd
         for k_, v_ in rh.items(): hist[k_] += v_
+        if prop == "C06":
+            import rec_cons
+            cf_, cn_, cd_, ch_ = rec_cons.run_part(seed, budget)
+            failures += cf_; evaluations += cn_; distinct |= cd_
+            for k_, v_ in ch_.items(): hist[k_] += v_
         import generics
         gf, gn, gd, gh = generics.run_part(prop, seed, budget)
         failures += gf; evaluations += gn; distinct |= gd
